@@ -498,6 +498,8 @@ func init() {
 		c.Group("C16/leader-placeholder", "a leaderless region is sent with an empty peer in its slot", func() { ruleLeaderPlaceholder(c) })
 		c.Group("C16/history", "change-log buffer: fields under its lock; index++ and flush accounting on every record, persisted every defaultFlushCount=100; RecordsFrom answers only inside the window and returns a copy", func() { ruleHistoryBuffer(c); ruleHistoryReset(c) })
 		c.Group("C16/follower-apply", "the follower records a region only after put+save, indexes leaders/stats only under length guards, re-bases on index mismatch", func() { ruleFollowerApply(c); rulePerRegionLeader(c); ruleSyncMessageLimit(c); ruleFollowerFieldMap(c) })
+		c.Group("C16/load-prunes", "(shared with C17) the follower loads its own region storage once per process and never again over the synchronised view", func() { ruleLoadedOnceAfterSuccess(c) })
+		c.Group("C16/saved-copy-not-aliased", "(shared with C06) saving a synchronised region never rewrites the keys of the region just put into the cache", func() { ruleSavedCopyNotAliased(c) })
 		c.Group("C16/staleness-atoms", "(shared with C06) synced regions carry no raft term: the precheck the follower applies them through compares terms only when the incoming region reports one", func() { ruleStalenessAtoms(c) })
 	})
 }
